@@ -1,6 +1,7 @@
-/- Line-protocol driver for the C18 model: one JSON op per line in, one canonical answer per line out. -/
+/- Line-protocol driver for the C18 FULL model (Model/SchemaFull.lean): one JSON op per line in, one canonical
+   answer per line out.  Key layouts / eviction policy come from Generated/C18.lean (re-extracted every run). -/
 import Lean.Data.Json
-import SqlglotModel.Model.Schema
+import SqlglotModel.Model.SchemaFull
 import SqlglotModel.Generated.C18
 
 open Lean (Json)
@@ -15,20 +16,47 @@ def jIdent (j : Json) : Except String Ident := do
 def jIdents (j : Json) : Except String (List Ident) := do
   (← j.getArr?).toList.mapM jIdent
 
-def jStrs (j : Json) : Except String (List String) := do
-  (← j.getArr?).toList.mapM (·.getStr?)
+def jStrPair (j : Json) : Except String (String × String) := do
+  let a ← j.getArr?
+  if h : a.size = 2 then return (← a[0].getStr?, ← a[1].getStr?) else throw "pair"
 
-def jStrat (j : Json) : Except String Strategy := do
-  match Strategy.ofString? (← j.getStr?) with
-  | some s => pure s
-  | none => throw "strategy"
+def jStrPairs (j : Json) : Except String (List (String × String)) := do
+  (← j.getArr?).toList.mapM jStrPair
+
+def jDialect (j : Json) : Except String DialectRef := do
+  let name ← (← j.getObjVal? "name").getStr?
+  let st ← match Strategy.ofString? (← (← j.getObjVal? "st").getStr?) with
+    | some s => pure s
+    | none => throw "strategy"
+  let ts ← (← j.getObjVal? "ts").getBool?
+  return ⟨name, ⟨st, ts⟩⟩
+
+/-- a dict is shipped as `{"n": [[key, sub], …]}` (namespace level) or `{"l": [[col, type], …]}` (column dict) -/
+partial def jTree (j : Json) : Except String Tree := do
+  match j.getObjVal? "l" with
+  | .ok l => return .leaf (← jStrPairs l)
+  | .error _ =>
+    let kids ← (← (← j.getObjVal? "n").getArr?).toList.mapM fun e => do
+      let a ← e.getArr?
+      if h : a.size = 2 then pure ((← a[0].getStr?), (← jTree a[1])) else throw "kid"
+    return .node kids
+
+def jCol (j : Json) : Except String ColArg := do
+  match j.getObjVal? "str" with
+  | .ok s => return .str (← s.getStr?)
+  | .error _ => return .ident (← jIdent (← j.getObjVal? "id"))
+
+def showErr : Err → String
+  | .ambiguous => "err ambiguous"
+  | .depthMismatch => "err depth"
+  | .internal => "err internal"
+  | .unknownTable => "err unknown"
+  | .noColumns => "err nocols"
 
 def showFind : FindR → String
   | .found c => "found " ++ toString (c.map fun (a, b) => a ++ ":" ++ b)
   | .notFound => "none"
-  | .err .ambiguous => "err ambiguous"
-  | .err .depthMismatch => "err depth"
-  | .err .internal => "err internal"
+  | .err e => showErr e
 
 def showOut : Out → String
   | .unit => "ok"
@@ -36,58 +64,82 @@ def showOut : Out → String
   | .ty t => "type " ++ t
   | .bool b => "bool " ++ toString b
   | .findR r => showFind r
-  | .err .ambiguous => "err ambiguous"
-  | .err .depthMismatch => "err depth"
-  | .err .internal => "err internal"
+  | .err e => showErr e
 
-def handle (S : St) (line : String) : Except String (St × String) := do
+def layouts : Layouts :=
+  { name := SqlglotModel.Generated.C18.nameCacheKey
+    table := SqlglotModel.Generated.C18.tableCacheKey
+    ty := SqlglotModel.Generated.C18.typeCacheKey
+    evict := SqlglotModel.Generated.C18.evictionPolicy }
+
+/-- `nested_get(path, self.visible)` on the shipped visible tree -/
+def visOf (v : Tree) (path : List Name) : Option (List Name) :=
+  match nestedGet v path with
+  | .found (.leaf cols) => some (cols.map (·.1))
+  | .found (.node kids) => some (kids.map (·.1))
+  | _ => none
+
+structure DSt where
+  tbl : TyTable
+  env : Env
+  st : FSt
+
+def emptyF : FSt := ⟨coreOfMapping (.node []), [], []⟩
+
+def handle (D : DSt) (line : String) : Except String (DSt × String) := do
   let j ← Json.parse line
   let op ← (← j.getObjVal? "op").getStr?
+  let tableArg : Except String TableArg := do
+    return ⟨← jIdents (← j.getObjVal? "table"), ← (← j.getObjVal? "as_str").getBool?⟩
+  let dn : Except String (DialectRef × Bool) := do
+    return (← jDialect (← j.getObjVal? "d"), ← (← j.getObjVal? "norm").getBool?)
+  let run (fop : FOp) : Except String (DSt × String) := do
+    let (F, o) := fStep D.env layouts D.st fop
+    return ({ D with st := F }, showOut o)
   match op with
-  | "reset" =>
-    let m ← (← j.getObjVal? "mapping").getArr?
-    let entries ← m.toList.mapM fun e => do
-      let a ← e.getArr?
-      if h : a.size = 2 then
-        let path ← jStrs a[0]
-        let cols ← (← a[1].getArr?).toList.mapM fun c => do
-          let ca ← c.getArr?
-          if h2 : ca.size = 2 then pure ((← ca[0].getStr?), (← ca[1].getStr?)) else throw "col"
-        pure (path, cols)
-      else throw "entry"
-    return (fresh ⟨entries, [], []⟩, "ok")
+  | "tytable" =>
+    let rows ← (← (← j.getObjVal? "rows").getArr?).toList.mapM fun r => do
+      let a ← r.getArr?
+      if h : a.size = 3 then pure (((← a[0].getStr?), (← a[1].getStr?)), (← a[2].getStr?)) else throw "row"
+    return ({ D with tbl := rows, env := { D.env with ty := tyOfTable rows } }, "ok")
+  | "init" =>
+    let raw ← jTree (← j.getObjVal? "raw")
+    let normalize ← (← j.getObjVal? "normalize").getBool?
+    let self ← jDialect (← j.getObjVal? "self")
+    let vis ← match j.getObjVal? "visible" with
+      | .ok Json.null => pure none
+      | .ok v => pure (some (← jTree v))
+      | .error _ => pure none
+    let env : Env := { f := asciiFns, ty := tyOfTable D.tbl, self := self,
+                       visEmpty := match vis with | none => true | some v => v.isEmptyDict,
+                       vis := match vis with | none => fun _ => none | some v => visOf v }
+    match fInit env layouts raw normalize with
+    | .ok F => return ({ D with env := env, st := F }, "ok")
+    | .error e => return ({ D with env := env, st := emptyF }, showErr e)
   | "add" =>
-    let st ← jStrat (← j.getObjVal? "st")
-    let norm ← (← j.getObjVal? "norm").getBool?
-    let table ← jIdents (← j.getObjVal? "table")
-    let cols ← (← (← j.getObjVal? "cols").getArr?).toList.mapM fun c => do
-      let ca ← c.getArr?
-      if h2 : ca.size = 2 then pure ((← jIdent ca[0]), (← ca[1].getStr?)) else throw "col"
-    let (S', o) := step SqlglotModel.Generated.C18.evictionPolicy S (.addTable st norm table cols)
-    return (S', showOut o)
+    let (d, n) ← dn
+    run (.addTable d n (← tableArg) (← jStrPairs (← j.getObjVal? "cols")))
   | "names" =>
-    let (S', o) := step .all S (.columnNames (← jStrat (← j.getObjVal? "st")) (← (← j.getObjVal? "norm").getBool?)
-      (← jIdents (← j.getObjVal? "table")))
-    return (S', showOut o)
+    let (d, n) ← dn
+    run (.columnNames d n (← tableArg) (← (← j.getObjVal? "ov").getBool?))
   | "type" =>
-    let (S', o) := step .all S (.columnType (← jStrat (← j.getObjVal? "st")) (← (← j.getObjVal? "norm").getBool?)
-      (← jIdents (← j.getObjVal? "table")) (← jIdent (← j.getObjVal? "col")))
-    return (S', showOut o)
+    let (d, n) ← dn
+    run (.columnType d n (← tableArg) (← jCol (← j.getObjVal? "col")))
   | "has" =>
-    let (S', o) := step .all S (.hasColumn (← jStrat (← j.getObjVal? "st")) (← (← j.getObjVal? "norm").getBool?)
-      (← jIdents (← j.getObjVal? "table")) (← jIdent (← j.getObjVal? "col")))
-    return (S', showOut o)
+    let (d, n) ← dn
+    run (.hasColumn d n (← tableArg) (← jCol (← j.getObjVal? "col")))
   | "find" =>
-    let (S', o) := step .all S (.find (← jIdents (← j.getObjVal? "table")) (← (← j.getObjVal? "raise").getBool?)
+    run (.find (← jIdents (← j.getObjVal? "table")) (← (← j.getObjVal? "raise").getBool?)
       (← (← j.getObjVal? "ensure").getBool?))
-    return (S', showOut o)
   | _ => throw "unknown op"
 
-partial def loop (h : IO.FS.Stream) (S : St) : IO Unit := do
+partial def loop (h : IO.FS.Stream) (D : DSt) : IO Unit := do
   let line ← h.getLine
   if line.isEmpty then return ()
-  match handle S line.trimAscii.toString with
-  | .ok (S', out) => IO.println out; loop h S'
-  | .error e => IO.println ("bad-op " ++ e); loop h S
+  match handle D line.trimAscii.toString with
+  | .ok (D', out) => IO.println out; loop h D'
+  | .error e => IO.println ("bad-op " ++ e); loop h D
 
-def main : IO Unit := do loop (← IO.getStdin) empty
+def main : IO Unit := do
+  let env : Env := { f := asciiFns, ty := fun _ t => t, self := default, visEmpty := true, vis := fun _ => none }
+  loop (← IO.getStdin) ⟨[], env, emptyF⟩
